@@ -161,3 +161,103 @@ func implV1DiffPatch(m V1Meta, aw, bw string) (dw, outcome string, equalsB bool,
 	}
 	return
 }
+
+// ---- implementation side of the v1 text layer (diff_write.go, diff_read.go, pointer.go)
+
+func encOutcomeDiffV1(d jd1.Diff, err error) string {
+	if err != nil {
+		return "err"
+	}
+	return "ok " + jd1.VerifEncodeDiff(d)
+}
+
+// implV1Render: Diff.Render() of the wire-decoded diff ("ok x…" | "panic").
+func implV1Render(dw string, color bool) string {
+	r, _ := safely(func() string {
+		d := mustDiffV1(dw)
+		if color {
+			return "ok " + textWire(d.Render(jd1.COLOR))
+		}
+		return "ok " + textWire(d.Render())
+	})
+	return r
+}
+
+func implV1ReadDiff(text string) string {
+	r, _ := safely(func() string { return encOutcomeDiffV1(jd1.ReadDiffString(text)) })
+	return r
+}
+
+func implV1RenderPatch(dw string) string {
+	r, _ := safely(func() string { return encOutcomeText(mustDiffV1(dw).RenderPatch()) })
+	return r
+}
+
+func implV1ReadPatch(text string) string {
+	r, _ := safely(func() string { return encOutcomeDiffV1(jd1.ReadPatchString(text)) })
+	return r
+}
+
+// implV1RenderMerge: RenderMerge stores jsonNull{} into the diff it is called on, hence a fresh diff per call.
+func implV1RenderMerge(dw string) string {
+	r, _ := safely(func() string { return encOutcomeText(mustDiffV1(dw).RenderMerge()) })
+	return r
+}
+
+func implV1ReadMerge(text string) string {
+	r, _ := safely(func() string { return encOutcomeDiffV1(jd1.ReadMergeString(text)) })
+	return r
+}
+
+func implV1Json(nw string) string {
+	r, _ := safely(func() string { return "ok " + textWire(mustNodeV1(nw).Json()) })
+	return r
+}
+
+// v1TextHalf is the second half of C17 on the real values: d := a.Diff(b, meta); text := d.Render();
+// d2 := ReadDiffString(text); r := a'.Patch(d2) on a fresh a'; r.Equals(b', meta).
+type v1TextHalf struct {
+	text    string // the rendered diff
+	render  string // "ok x…" | "panic"
+	read    string // outcome of ReadDiffString: "ok <diff>" | "err" | "panic" | "" (not reached)
+	patch   string // outcome of patching a fresh a with the re-read diff
+	equalsB bool
+	pmsg    string
+}
+
+func implV1TextHalf(m V1Meta, aw, bw string) v1TextHalf {
+	var t v1TextHalf
+	stage := "render"
+	res, msg := safely(func() string {
+		a, b := mustNodeV1(aw), mustNodeV1(bw)
+		d := a.Diff(b, m.Go()...)
+		t.text = d.Render()
+		t.render = "ok " + textWire(t.text)
+		stage = "read"
+		d2, err := jd1.ReadDiffString(t.text)
+		t.read = encOutcomeDiffV1(d2, err)
+		if err != nil {
+			t.patch = "err"
+			return "done"
+		}
+		stage = "patch"
+		r, err := mustNodeV1(aw).Patch(d2)
+		t.patch = encOutcomeNodeV1(r, err)
+		if err == nil {
+			t.equalsB = r.Equals(mustNodeV1(bw), m.Go()...)
+		}
+		return "done"
+	})
+	if res == "panic" {
+		t.pmsg = msg
+		switch stage {
+		case "render":
+			t.render, t.read, t.patch = "panic", "", "panic"
+		case "read":
+			t.read, t.patch = "panic", "panic"
+		default:
+			t.patch = "panic"
+		}
+	}
+	return t
+}
